@@ -68,11 +68,14 @@ def random_jobs(pid, n, seed, length):
     jobs = []
     for i in range(n):
         hostile = i % 3 == 2           # a third of the histories use CSV-hostile strings (line breaks, delimiters, quotes)
+        rand = i % 6 == 1              # a sixth use value tables drawn at random (themes._random_tables): the verdict must not
+        #                                depend on which order-isomorphic values stand for the ranks
         g = gen.Gen(seed * 1000003 + i * 7919 + int(pid[1:]) * 131, ntk=NTK, nfk=NFK, focus=f["weights"], handles=f["handles"],
-                    regex=not hostile)
+                    regex=not (hostile or rand))
         kind, ai = traces.CONFIGS[i % 4]
         ops = g.history(g.r.choice(length), p_read=f["p_read"])
-        jobs.append(("r%d" % i, kind, ai, ops, g.battery(), NTK, NFK, {"theme": "csv-hostile"} if hostile else {}))
+        opts = {"theme": "csv-hostile"} if hostile else ({"theme": "random:%d" % (seed * 100000 + i)} if rand else {})
+        jobs.append(("r%d" % i, kind, ai, ops, g.battery(), NTK, NFK, opts))
     for i in range(max(40, n // 10)):          # batches that are unordered within themselves (see gen.batch_scenario)
         g = gen.Gen(seed * 7771 + i * 13 + int(pid[1:]), ntk=NTK, nfk=NFK, focus=f["weights"], handles=0.0)
         kind, ai = traces.CONFIGS[(i % 3) if i % 4 else 1]      # mostly auto_index on
